@@ -75,6 +75,9 @@ type c04In struct {
 	// what the registry answers at *its* moment)
 	Prior           []c04Frame `json:"prior,omitempty"`
 	PriorRegistered bool       `json:"prior_registered,omitempty"`
+	// caller level, inbound: the peer was admitted over this connection before (by the handshake
+	// in `prior`) and now opens a second handshake stream on it
+	PriorAdmit bool `json:"prior_admit,omitempty"`
 }
 type c04Obs struct {
 	Outcome   string     `json:"outcome"` // admitted | refused
@@ -207,9 +210,16 @@ func c04Decode(wire []byte) []c04Frame {
 
 type c04Net struct {
 	network.Network
+	h *c04Host
 }
 
-func (c04Net) ClosePeer(peer.ID) error { return nil }
+// libp2p closes the peer's connections; the registry hears of each through its Disconnected hook
+func (n c04Net) ClosePeer(id peer.ID) error {
+	if n.h != nil && n.h.onClosePeer != nil {
+		n.h.onClosePeer(id)
+	}
+	return nil
+}
 
 type c04PS struct {
 	peerstore.Peerstore
@@ -219,10 +229,11 @@ func (c04PS) AddAddrs(peer.ID, []ma.Multiaddr, time.Duration) {}
 
 type c04Host struct {
 	host.Host
-	stream *c04Stream
+	stream      *c04Stream
+	onClosePeer func(peer.ID)
 }
 
-func (h *c04Host) Network() network.Network                          { return c04Net{} }
+func (h *c04Host) Network() network.Network                          { return c04Net{h: h} }
 func (h *c04Host) Peerstore() peerstore.Peerstore                    { return c04PS{} }
 func (h *c04Host) Connect(context.Context, peer.AddrInfo) error       { return nil }
 func (h *c04Host) NewStream(context.Context, peer.ID, ...protocol.ID) (network.Stream, error) {
@@ -318,7 +329,7 @@ func c04Run(t *testing.T, in *c04In, w *c04World, ed bool) (obs c04Obs) {
 	if ed {
 		pid = w.edID
 	}
-	if len(in.Prior) > 0 {
+	if len(in.Prior) > 0 && !in.PriorAdmit {
 		reg.answer = in.PriorRegistered
 		var pw []byte
 		for _, f := range in.Prior {
@@ -369,6 +380,21 @@ func c04Run(t *testing.T, in *c04In, w *c04World, ed bool) (obs c04Obs) {
 			peers: newPeerRegistry(), logger: util.NewTestLogger(io.Discard), notifier: n, hsSvc: hs,
 			metrics: newMetrics(prometheus.NewRegistry(), "verif"), blockMap: make(map[peer.ID]blockInfo)}
 		svc.peers.setDisconnector(svc)
+		if in.Inbound && in.PriorAdmit {
+			var pw []byte
+			for _, f := range in.Prior {
+				pw = append(pw, c04FrameBytes(f)...)
+			}
+			reg.mu.Lock()
+			reg.answer = true
+			reg.mu.Unlock()
+			svc.handleConnectReq(&c04Stream{rd: bytes.NewReader(pw), conn: ls.conn, writeFail: -1})
+			n.connected = nil
+			svc.host.(*c04Host).onClosePeer = func(peer.ID) { svc.peers.Disconnected(nil, ls.conn) }
+			reg.mu.Lock()
+			reg.answer, reg.lookups = in.Registered, 0
+			reg.mu.Unlock()
+		}
 		if in.Inbound {
 			svc.handleConnectReq(ls)
 		} else {
@@ -659,6 +685,26 @@ func c04Generate(t *testing.T, out *vout, blockCells bool) {
 	}
 	if !blockCells {
 		c04Overlap(t, out, rng, vcount(12, 120))
+	}
+	// an admitted peer opens a second handshake stream on its connection, and that one fails (or not)
+	for _, lr := range localRoles {
+		for _, role := range []string{"bidder", "provider"} {
+			for _, sc := range []string{"valid", "foreign", "flipped", "short", "other-message"} {
+				for _, registered := range []bool{true, false} {
+					rq := reqFrame(role, "tok", sc)
+					ownRole := p2p.PeerType(lr).String()
+					in := &c04In{Tag: "second-handshake-on-admitted-connection", Inbound: true, Level: "caller", LocalRole: lr, OwnAddr: hx(ownAddr),
+						OwnRole: hx([]byte(ownRole)), OwnToken: hx([]byte("token-local")), OwnSig: hx(sign(w.localKey, ownRole+"token-local")),
+						Registered: registered, Remote: []c04Frame{rq, echo(lr, "right")}, WriteFail: -1, Prims: []c04Verify{},
+						Prior: []c04Frame{reqFrame(role, "tok0", "valid"), echo(lr, "right")}, PriorAdmit: true}
+					s := hx(remAddr)
+					in.PeerAddr = &s
+					sg, _ := hex.DecodeString(rq.Sig)
+					in.Prims = append(in.Prims, c04Prim(sg, []byte(role+"tok")))
+					out.emitAs("C04", in, c04Run(t, in, w, false))
+				}
+			}
+		}
 	}
 	// truncations, wrong frame kinds, write failures, non-secp256k1 transport identity
 	for _, level := range []string{"service", "caller"} {
